@@ -86,13 +86,43 @@ func (l *runLog) String() string {
 type recConn struct {
 	net.Conn
 	rl     *runLog
-	closes int32
+	closes int32 // Close() entered
+	closed int32 // Close() returned
 }
 
 func (c *recConn) Close() error {
 	atomic.AddInt32(&c.closes, 1)
 	c.rl.add("CL")
-	return c.Conn.Close()
+	err := c.Conn.Close()
+	atomic.AddInt32(&c.closed, 1)
+	return err
+}
+
+// lockNode: the node handed to canrunner.Run with Lock / Unlock observed.  When a scenario has
+// armed a "window action", the first runner goroutine that releases the node lock runs it right
+// after its Unlock - an application critical section placed exactly in the window between the
+// runner's Unlock and whatever the runner does next (its hook call), deterministically.
+type lockNode struct {
+	hookNode
+	r *nodeRun
+}
+
+func (n *lockNode) Lock() {
+	n.hookNode.Node.Lock()
+	if atomic.LoadInt32(&n.r.klogOn) != 0 {
+		n.r.kl.add(fmt.Sprintf("KL.%x", goid()))
+	}
+}
+
+func (n *lockNode) Unlock() {
+	on := atomic.LoadInt32(&n.r.klogOn) != 0
+	if on {
+		n.r.kl.add(fmt.Sprintf("KU.%x", goid()))
+	}
+	n.hookNode.Node.Unlock()
+	if on && atomic.CompareAndSwapInt32(&n.r.windowArmed, 1, 0) {
+		n.r.window()
+	}
 }
 
 // nodeOpt: when the cancellation comes relative to Run / Connect, and how Connect behaves.
@@ -103,6 +133,7 @@ type nodeOpt struct {
 	ownRun     bool     // unix only: the generated node's own Run(ctx) and Connect (Close is then seen by the peer only)
 	again      *nodeRun // run the SAME node value as this finished run once more (same address)
 	keep       bool     // another run of the same node follows: keep the socket directory
+	klog       bool     // log the runner's Lock / Unlock calls from the start (KL / KU tokens)
 }
 
 type peer struct {
@@ -218,6 +249,11 @@ type nodeRun struct {
 	rec    *recConn // the connection Connect returned (written before Run can return)
 	inConn chan struct{}
 	gateCh chan struct{}
+
+	kl          *runLog // KL / KU / KS / KC tokens (which hook runs), while klogOn
+	klogOn      int32
+	windowArmed int32
+	window      func()
 }
 
 func startNode(scen, mode string, emit func(string)) (*nodeRun, error) {
@@ -241,10 +277,50 @@ func (r *nodeRun) connectVia(inner func() (net.Conn, error)) func() (net.Conn, e
 			r.rl.add("CR.0")
 			return nil, err
 		}
-		r.rec = &recConn{Conn: c, rl: r.rl}
+		rec := &recConn{Conn: c, rl: r.rl}
+		r.rl.mu.Lock()
+		r.rec = rec
+		r.rl.mu.Unlock()
 		r.rl.add("CR.1")
-		return r.rec, nil
+		return rec, nil
 	}
+}
+
+// waitStartup (needs nodeOpt.klog): the transmitters' start-up critical sections (one flag read
+// each) are over; the log of Lock / Unlock calls starts afresh.
+func (r *nodeRun) waitStartup() {
+	ntx := len(r.node.(canrunner.Node).TransmittedMessages())
+	for d := time.Now().Add(lw()); time.Now().Before(d) && r.kl.count("KU.") < ntx && !r.ended(); {
+		time.Sleep(time.Millisecond)
+	}
+	time.Sleep(2 * time.Millisecond)
+	r.kl.reset()
+}
+
+// connClosed: Close() on the connection Connect returned has returned.
+func (r *nodeRun) connClosed() bool {
+	r.rl.mu.Lock()
+	rec := r.rec
+	r.rl.mu.Unlock()
+	return rec != nil && atomic.LoadInt32(&rec.closed) != 0
+}
+
+func (l *runLog) count(prefix string) int {
+	l.mu.Lock()
+	defer l.mu.Unlock()
+	n := 0
+	for _, t := range l.toks {
+		if strings.HasPrefix(t, prefix) {
+			n++
+		}
+	}
+	return n
+}
+
+func (l *runLog) reset() {
+	l.mu.Lock()
+	l.toks = nil
+	l.mu.Unlock()
 }
 
 // cancelDuringConnect: Run is inside Connect; cancel, then let Connect return.
@@ -265,7 +341,10 @@ func (r *nodeRun) cancelDuringConnect() error {
 
 func startNodeOpt(scen, mode string, emit func(string), opt nodeOpt) (*nodeRun, error) {
 	r := &nodeRun{scen: scen + "-" + mode, mode: mode, emit: emit, result: make(chan error, 1), runEnd: make(chan struct{}),
-		opt: opt, rl: &runLog{}, inConn: make(chan struct{}), gateCh: make(chan struct{})}
+		opt: opt, rl: &runLog{}, kl: &runLog{}, inConn: make(chan struct{}), gateCh: make(chan struct{})}
+	if opt.klog {
+		r.klogOn = 1
+	}
 	r.leak = goleak.IgnoreCurrent()
 	// a panic inside Run's goroutines cannot be caught here and kills the process: leave a note on
 	// stderr which scenario was running (the check puts the panic and this line into the violation)
@@ -307,7 +386,7 @@ func startNodeOpt(scen, mode string, emit func(string), opt nodeOpt) (*nodeRun, 
 			go func() { r.res = r.node.Run(ctx); close(r.runEnd) }()
 		} else {
 			inner := r.node.(canrunner.Node)
-			go runIt(hookNode{Node: inner, connect: r.connectVia(inner.Connect)})
+			go runIt(&lockNode{hookNode: hookNode{Node: inner, connect: r.connectVia(inner.Connect)}, r: r})
 		}
 		type acc struct {
 			c   net.Conn
@@ -335,7 +414,7 @@ func startNodeOpt(scen, mode string, emit func(string), opt nodeOpt) (*nodeRun, 
 			r.node = examplecan.NewDRIVER("none", "none")
 		}
 		r.prepare()
-		go runIt(hookNode{Node: r.node.(canrunner.Node), connect: r.connectVia(func() (net.Conn, error) { return c1, nil })})
+		go runIt(&lockNode{hookNode: hookNode{Node: r.node.(canrunner.Node), connect: r.connectVia(func() (net.Conn, error) { return c1, nil })}, r: r})
 		r.peer = &peer{conn: c2, abort: r.runEnd}
 		if err := r.cancelDuringConnect(); err != nil {
 			return nil, err
@@ -1139,6 +1218,333 @@ func wnReEnable(mode string, emit func(string)) {
 	r.finish("none", "", "")
 }
 
+// ---------------------------------------------------------------- generated node: lock discipline (C13)
+
+// wnHookSwap: the application replaces a hook - under the node lock - exactly in the window between
+// the runner's Unlock and its hook call (window action of lockNode).  The hook that was installed
+// when the runner read it inside its critical section is the one that runs for that frame /
+// transmission; the new one runs from the next on.  Printed as
+//
+//	HK scen=<s> first=<hook id> KL.g KU.g KS.<id> KC.g.<id> ...     (g = goroutine)
+//
+// and checked by the model driver against RunLts.kstep per runner goroutine.
+func wnHookSwap(kind, mode string, emit func(string)) {
+	name := "hookswap" + kind
+	r, err := startNodeOpt(name, mode, emit, nodeOpt{klog: true})
+	if err != nil {
+		emit("WN scen=" + name + "-" + mode + " check=setup ok=0 info=" + hexs(err.Error()))
+		return
+	}
+	called := make(chan int, 64)
+	mk := func(id int) func(context.Context) error {
+		return func(context.Context) error {
+			r.kl.add(fmt.Sprintf("KC.%x.%x", goid(), id))
+			called <- id
+			return nil
+		}
+	}
+	ms, hb := r.node.Rx().MotorStatus(), r.node.Tx().DriverHeartbeat()
+	install := func(id int) {
+		if kind == "rx" {
+			ms.SetAfterReceiveHook(mk(id))
+		} else {
+			hb.SetBeforeTransmitHook(mk(id))
+		}
+	}
+	trigger := func() bool {
+		if kind == "rx" {
+			return r.peer.send(examplecan.NewMotorStatus().Frame()) == nil
+		}
+		ctx, cancel := context.WithTimeout(context.Background(), lw())
+		defer cancel()
+		return hb.Transmit(ctx) == nil
+	}
+	wait := func() int {
+		select {
+		case id := <-called:
+			return id
+		case <-r.runEnd:
+			return -1
+		case <-time.After(lw()):
+			return -2
+		}
+	}
+	r.waitStartup()
+	frames := &frameWaiter{r: r, id: 100, counts: map[uint32]int{}}
+	locked(r.node, func() { install(1) })
+	next := 2
+	r.window = func() {
+		locked(r.node, func() {
+			install(next)
+			r.kl.add(fmt.Sprintf("KS.%x", next))
+		})
+	}
+	var got []int
+	for round := 0; round < 3; round++ {
+		// rounds 0 and 1 replace the hook in the window, round 2 only observes
+		if round < 2 {
+			next = 2 + round
+			atomic.StoreInt32(&r.windowArmed, 1)
+		}
+		if !trigger() {
+			got = append(got, -3)
+			break
+		}
+		got = append(got, wait())
+		if kind == "tx" {
+			// the transmission goes on after the hook (Frame() section, write): let it finish before the next window is armed
+			frames.collect(round + 1)
+		}
+	}
+	atomic.StoreInt32(&r.klogOn, 0)
+	r.hard("hook-read-under-lock-is-the-one-called", fmt.Sprint(got) == "[1 2 3]",
+		fmt.Sprintf("hooks called for three %s triggers: %v; hook 1 installed first, hook 2 (then 3) installed right after the runner's Unlock of trigger 1 (2); expected [1 2 3]", kind, got))
+	emit(fmt.Sprintf("HK scen=%s first=1 %s", r.scen, r.kl.String()))
+	r.stop()
+	r.finish("none", "", "")
+}
+
+type frameWaiter struct {
+	r      *nodeRun
+	id     uint32
+	counts map[uint32]int
+}
+
+func (f *frameWaiter) collect(n int) bool {
+	ok := f.r.peer.collect(f.counts, lw(), func() bool { return f.counts[f.id] >= n })
+	time.Sleep(time.Millisecond)
+	return ok
+}
+
+// wnHookChurn: the application keeps replacing the hooks under the node lock while frames arrive
+// and requests are served: every hook call runs one of the installed hooks; built with the race
+// detector (mode gennode) a hook field read outside the lock shows up as a data race.
+func wnHookChurn(mode string, emit func(string)) {
+	r, err := startNodeOpt("hookchurn", mode, emit, nodeOpt{})
+	if err != nil {
+		emit("WN scen=hookchurn-" + mode + " check=setup ok=0 info=" + hexs(err.Error()))
+		return
+	}
+	var calls int32
+	ms, hb := r.node.Rx().MotorStatus(), r.node.Tx().DriverHeartbeat()
+	stop := make(chan struct{})
+	var wg sync.WaitGroup
+	wg.Add(1)
+	locked(r.node, func() {
+		ms.SetAfterReceiveHook(func(context.Context) error { atomic.AddInt32(&calls, 1); return nil })
+		hb.SetBeforeTransmitHook(func(context.Context) error { atomic.AddInt32(&calls, 1); return nil })
+	})
+	go func() {
+		defer wg.Done()
+		for i := 0; ; i++ {
+			select {
+			case <-stop:
+				return
+			default:
+			}
+			locked(r.node, func() {
+				ms.SetAfterReceiveHook(func(context.Context) error { atomic.AddInt32(&calls, 1); return nil })
+				hb.SetBeforeTransmitHook(func(context.Context) error { atomic.AddInt32(&calls, 1); return nil })
+			})
+			if i%8 == 0 {
+				time.Sleep(50 * time.Microsecond)
+			}
+		}
+	}()
+	const n = 40
+	sent := 0
+	for i := 0; i < n && !r.ended(); i++ {
+		if r.peer.send(examplecan.NewMotorStatus().Frame()) == nil {
+			sent++
+		}
+		ctx, cancel := context.WithTimeout(context.Background(), lw())
+		if hb.Transmit(ctx) == nil {
+			sent++
+		}
+		cancel()
+	}
+	deadline := time.Now().Add(lw())
+	for int(atomic.LoadInt32(&calls)) < sent && time.Now().Before(deadline) && !r.ended() {
+		time.Sleep(time.Millisecond)
+	}
+	close(stop)
+	wg.Wait()
+	r.check("one-hook-call-per-frame-and-request", int(atomic.LoadInt32(&calls)) == sent, fmt.Sprintf("frames+requests=%d hook calls=%d while the hooks were being replaced", sent, calls))
+	r.stop()
+	r.finish("none", "", "")
+}
+
+// wnBusyToggles: several toggles of one message in ONE application critical section (and in
+// consecutive ones) while its transmitter is busy - inside a before-transmit hook that itself
+// wants the node lock -: SetCyclicTransmissionEnabled never blocks (the application would sit on the
+// node lock for ever) and the last toggle is the one in force afterwards.
+func wnBusyToggles(mode string, emit func(string)) {
+	mcD := examplecan.Messages().MotorCommand
+	old := mcD.CycleTime
+	mcD.CycleTime = 5 * time.Millisecond
+	defer func() { mcD.CycleTime = old }()
+	r, err := startNode("busytoggles", mode, emit)
+	if err != nil {
+		emit("WN scen=busytoggles-" + mode + " check=setup ok=0 info=" + hexs(err.Error()))
+		return
+	}
+	mc := r.node.Tx().MotorCommand()
+	entered := make(chan struct{}, 4)
+	release := make(chan struct{})
+	var gate int32 = 1
+	locked(r.node, func() {
+		mc.SetBeforeTransmitHook(func(context.Context) error {
+			if atomic.CompareAndSwapInt32(&gate, 1, 0) {
+				entered <- struct{}{}
+				<-release
+			}
+			locked(r.node, func() {}) // a hook may take the node lock
+			return nil
+		})
+	})
+	go func() {
+		ctx, cancel := context.WithTimeout(context.Background(), lw())
+		defer cancel()
+		_ = mc.Transmit(ctx)
+	}()
+	select {
+	case <-entered:
+	case <-r.runEnd:
+	case <-time.After(lw()):
+	}
+	// the transmitter sits in its hook: nothing consumes the wake-up channel
+	ok := callWithin(lw(), func() {
+		locked(r.node, func() {
+			mc.SetCyclicTransmissionEnabled(true)
+			mc.SetCyclicTransmissionEnabled(false)
+			mc.SetCyclicTransmissionEnabled(true)
+			mc.SetCyclicTransmissionEnabled(true)
+		})
+	})
+	r.hard("toggle-call-returns", ok, "Lock; Set(true); Set(false); Set(true); Set(true); Unlock while the transmitter is inside its hook")
+	ok2 := ok && callWithin(lw(), func() {
+		locked(r.node, func() { mc.SetCyclicTransmissionEnabled(false) })
+		locked(r.node, func() { mc.SetCyclicTransmissionEnabled(true) })
+	})
+	r.hard("toggle-call-returns", ok2, "two more critical sections Set(false) / Set(true) while the transmitter is inside its hook")
+	close(release)
+	if ok2 {
+		counts := map[uint32]int{}
+		got := r.peer.collect(counts, lw(), func() bool { return counts[101] >= 4 })
+		r.check("enable-takes-effect", got, fmt.Sprintf("last toggle = enable: frames=%d", counts[101]))
+		okd := callWithin(lw(), func() {
+			locked(r.node, func() { mc.SetCyclicTransmissionEnabled(true); mc.SetCyclicTransmissionEnabled(false) })
+		})
+		r.hard("toggle-call-returns", okd, "Lock; Set(true); Set(false); Unlock while ticking")
+		n, q := r.peer.quiet(101, 150*time.Millisecond, lw())
+		r.check("disable-takes-effect", q && n <= 64, fmt.Sprintf("last toggle = disable: frames=%d quiet=%v", n, q))
+	}
+	r.stop()
+	r.finish("none", "", "")
+}
+
+// genNodeDiscipline: the C13 scenarios on the generated node (the step-controlled fakes do not run
+// the generated accessors).
+func genNodeDiscipline(emit func(string)) {
+	for _, mode := range []string{"pipe", "unix"} {
+		wnHookSwap("rx", mode, emit)
+		wnHookSwap("tx", mode, emit)
+		wnHookChurn(mode, emit)
+		wnBusyToggles(mode, emit)
+	}
+}
+
+// wnCancelInFlight: the context is cancelled while a transmission is in flight - "lock": the
+// request / tick has been taken and the transmitter waits for the node lock in front of the hook;
+// "hook": inside the before-transmit hook; "frame": after the hook, waiting for the node lock in
+// front of Frame() - with the real socketcan.Transmitter, the peer alive or already gone (then the
+// receiver has returned nil and the transmitter's result is the group's first error).  Only what
+// the property says is asserted: Run returns nil, the connection is closed, no goroutine is left;
+// whether the frame still goes out is open.
+func wnCancelInFlight(point, trigger string, peerGone bool, mode string, emit func(string)) {
+	mcD := examplecan.Messages().MotorCommand
+	old := mcD.CycleTime
+	mcD.CycleTime = 20 * time.Millisecond
+	defer func() { mcD.CycleTime = old }()
+	name := "cancel" + point + trigger
+	if peerGone {
+		name += "gone"
+	}
+	r, err := startNodeOpt(name, mode, emit, nodeOpt{klog: true})
+	if err != nil {
+		emit("WN scen=" + name + "-" + mode + " check=setup ok=0 info=" + hexs(err.Error()))
+		return
+	}
+	r.waitStartup()
+	atomic.StoreInt32(&r.klogOn, 0)
+	mc := r.node.Tx().MotorCommand()
+	entered := make(chan struct{}, 1)
+	release := make(chan struct{})
+	var first int32 = 1
+	locked(r.node, func() {
+		mc.SetBeforeTransmitHook(func(context.Context) error {
+			if atomic.CompareAndSwapInt32(&first, 1, 0) {
+				entered <- struct{}{}
+				<-release
+			}
+			return nil
+		})
+	})
+	if peerGone {
+		_ = r.peer.conn.Close()
+		time.Sleep(5 * time.Millisecond) // the receiver sees the end of the stream and returns nil
+	}
+	held := false
+	if point == "lock" {
+		r.node.Lock() // the transmitter will wait here, in front of the hook lookup
+		held = true
+	}
+	if trigger == "tick" {
+		if held {
+			mc.SetCyclicTransmissionEnabled(true)
+			r.node.Unlock() // the flag has to be read first; take the lock again before the first tick is due
+			time.Sleep(3 * time.Millisecond)
+			r.node.Lock()
+		} else {
+			locked(r.node, func() { mc.SetCyclicTransmissionEnabled(true) })
+		}
+	} else {
+		ctx, cancel := context.WithTimeout(context.Background(), lw())
+		errT := mc.Transmit(ctx)
+		cancel()
+		r.check("request-accepted", errT == nil, fmt.Sprint(errT))
+	}
+	switch point {
+	case "lock":
+		time.Sleep(30 * time.Millisecond) // the request is accepted / the tick due: the transmitter waits for the lock
+	case "hook", "frame":
+		select {
+		case <-entered:
+		case <-r.runEnd:
+		case <-time.After(lw()):
+		}
+		if point == "frame" {
+			r.node.Lock() // the transmitter will wait here after the hook, in front of Frame()
+			held = true
+			close(release)
+			time.Sleep(10 * time.Millisecond)
+		}
+	}
+	r.stop() // cancel while the transmission is in flight
+	// the closer goroutine closes the connection; let it finish so that the write meets a closed connection
+	deadline := time.Now().Add(lw())
+	for time.Now().Before(deadline) && !r.connClosed() && !r.ended() {
+		time.Sleep(time.Millisecond)
+	}
+	if held {
+		r.node.Unlock()
+	}
+	if point != "frame" {
+		close(release)
+	}
+	r.finish("none", "", "")
+}
+
 func wholeNode(rounds int, emit0 func(string)) {
 	emit := func(s string) {
 		if strings.HasPrefix(s, "WN ") && strings.Contains(s, " ok=0 ") {
@@ -1158,6 +1564,12 @@ func wholeNode(rounds int, emit0 func(string)) {
 		}
 		wnNotEligible(mode, emit)
 		wnReEnable(mode, emit)
+		wnBusyToggles(mode, emit)
+		for k, point := range []string{"lock", "hook", "frame"} {
+			for j, trig := range []string{"event", "tick"} {
+				wnCancelInFlight(point, trig, (k+j+i)%2 == 0, mode, emit)
+			}
+		}
 		wnCancelEarly("precancel", mode, mode == "unix", emit)
 		wnCancelEarly("connectcancel", mode, false, emit)
 		if mode == "pipe" {
